@@ -62,6 +62,9 @@ def render_word(w: Word) -> str:
     if k == "iprop":
         vals = " ".join(w[2])
         return f"[{w[1]}:: {vals}]"
+    if k == "ipropns":  # no space after '::'
+        vals = " ".join(w[2])
+        return f"[{w[1]}::{vals}]"
     if k == "bprop":  # only as the content of a bullet line
         vals = " ".join(w[2])
         return f"{w[1]}:: {vals}".rstrip() if not vals else f"{w[1]}:: {vals}"
@@ -104,7 +107,7 @@ def meta_of(ws: Sequence[Word], *, digit_tags_dropped: bool = True) -> Meta:
             m.links.add("x:" + w[1])
         elif k == "prop":
             m.props[w[1]] = w[2]
-        elif k in ("iprop", "bprop"):
+        elif k in ("iprop", "bprop", "ipropns"):
             m.props[w[1]] = " ".join(w[2])
         elif k == "date":
             m.date = w[1]
